@@ -319,13 +319,13 @@ def parse_state(block):
     return st
 
 
-def read_dump(path):
-    """Yield states (dicts) of a TLC -dump file."""
+def read_dump(path, only=None):
+    """Yield states (dicts) of a TLC -dump file; `only`: substring a state block must contain."""
     with open(path) as fh:
         txt = fh.read()
     for blk in re.split(r"^State \d+:\s*$", txt, flags=re.M):
         blk = blk.strip()
-        if blk:
+        if blk and (only is None or only in blk):
             yield parse_state(blk)
 
 
